@@ -311,7 +311,7 @@ static Case gen_c15(Chooser& ch) {
 }
 
 // ---------------------------------------------------------------- footprint measurement (C07, C11)
-struct Footprint { size_t mapped = 0, regions = 0, resident = 0, big_outside = 0, small_outside = 0, arena_resident = 0; uintptr_t first_big = 0; size_t first_big_len = 0; };
+struct Footprint { size_t mapped = 0, regions = 0, resident = 0, big_outside = 0, small_outside = 0, arena_resident = 0; uintptr_t first_big = 0; size_t first_big_len = 0; size_t arenas = 0, arena_mapped = 0, arena_regions = 0; };
 static Footprint measure_footprint() {
   Footprint f; static vf_region_t regs[8192]; size_t n = vf_regions(regs, 8192);
   struct Ar { uintptr_t lo, hi; }; std::vector<Ar> ars;
@@ -320,11 +320,11 @@ static Footprint measure_footprint() {
     f.mapped += regs[i].len; f.regions++;
     uintptr_t lo = regs[i].addr, hi = lo + regs[i].len; size_t inside = 0;
     for (auto& a : ars) { uintptr_t l = std::max(lo, a.lo), h = std::min(hi, a.hi); if (l < h) inside += h - l; }
-    size_t outside = regs[i].len - inside;
+    size_t outside = regs[i].len - inside; f.arena_mapped += inside; if (inside) f.arena_regions++;
     if (inside == 0) { if (regs[i].len > 64*KiB) { f.big_outside++; if (!f.first_big) { f.first_big = lo; f.first_big_len = regs[i].len; } } else f.small_outside++; }
     else if (outside > 64*MiB) { /* arena mapping with slack from alignment: fine */ }
   }
-  f.resident = vf_resident_pages();
+  f.resident = vf_resident_pages(); f.arenas = ars.size();
   for (auto& a : ars) f.arena_resident += vf_resident_pages_in(a.lo, a.hi);
   return f;
 }
@@ -422,7 +422,7 @@ static Case gen_c07_workload(Chooser& ch) {
 }
 
 // ---------------------------------------------------------------- C11: give-back at quiescence, no creep over repetitions
-static void c11_event(int kind, void*, size_t, int, int) { if (g_exec) g_exec->count(C_OSCALLS); (void)kind; }
+static void c11_event(int kind, void* addr, size_t len, int, int) { if (g_exec) g_exec->count(C_OSCALLS); if (getenv("VF_TRACE_MAPS") && (kind == VF_MAP || kind == VF_UNMAP) && len >= 4*MiB) fprintf(stderr, "op#%ld %s %p +%zu MiB\n", g_exec ? g_exec->opi : -1, kind == VF_MAP ? "map" : "unmap", addr, len / MiB); }
 
 static Case gen_c11(Chooser& ch) {
   Profile pf; pf.min_ops = 6; pf.max_ops = 40; pf.w_heap = 3; pf.w_visit = 0; pf.w_verify = 0; pf.w_talloc = 4; pf.w_tfree = 3; pf.p_aligned = 25; pf.w_churn = 1;
@@ -435,7 +435,7 @@ static Case gen_c11(Chooser& ch) {
   // forced abandonment of the thread's own segments (option, or mi_collect_reduce ops in the body): everything must still be given back
   if (ch.chance(1, 4)) { c.push_back(Op("opt").s("name", "target_segments_per_thread").u("v", ch.chance(1, 2) ? 2 : 4)); g.forced = true; } else if (ch.chance(1, 4)) g.forced = true;
   if (g.forced) { c.push_back(Op("cfg").u("forced", 1)); g.pf.w_collect += 4; }
-  size_t reps = ch.chance(1, 2) ? 6 : (size_t)ch.range(4, 9);
+  size_t reps = ch.chance(1, 2) ? 6 : (size_t)ch.range(6, 10);   // (>= 3 repetitions after the warm-up, so that repeated growth can be told from a single step)
   c.push_back(Op("rep").u("n", reps));
   // body: a workload shape + random history
   unsigned shape = (unsigned)ch.pick(7);
@@ -466,7 +466,7 @@ static void exec_c11(const Case& c, Exec& ex) {
   size_t reps = c[i].num("n", 4); if (reps > 64) reps = 64; size_t b0 = i + 1, b1 = b0; while (b1 < c.size() && c[b1].name != "endrep") b1++;
   std::vector<Footprint> fps; size_t os_maps_before = (size_t)vf_count(VF_MAP);
   for (size_t r = 0; r < reps; r++) {
-    for (size_t k = b0; k < b1; k++) { ex.opi = (long)k; eng::g_cur_op = (long)k; int e0 = ex.mi_errors[0] + ex.mi_errors[1] + ex.mi_errors[2]; ex.do_op(c[k]);
+    for (size_t k = b0; k < b1; k++) { ex.opi = (long)k; eng::g_cur_op = (long)k; if (getenv("VF_SHOW_ARENAS_AT") && atol(getenv("VF_SHOW_ARENAS_AT")) == (long)k) { fprintf(stderr, "== rep %zu before op#%zu\n", r, k); mi_debug_show_arenas(); } int e0 = ex.mi_errors[0] + ex.mi_errors[1] + ex.mi_errors[2]; ex.do_op(c[k]);
       if (ex.mi_errors[0] + ex.mi_errors[1] + ex.mi_errors[2] != e0) fail_now("mi-error", "op#%ld rep %zu: allocator reported an error (%d)", ex.opi, r, ex.last_err); }
     // quiescence: free everything, release all heaps, forced collect
     ex.verify_all("before-quiesce", true);
@@ -476,6 +476,7 @@ static void exec_c11(const Case& c, Exec& ex) {
     mi_collect(true);
     vf_clock_advance(200); mi_collect(true);    // lets delayed purges expire as well (quiescence is what is asserted, not timing)
     fps.push_back(measure_footprint());
+    if (getenv("VF_SHOW_ARENAS")) { fprintf(stderr, "== after repetition %zu: mapped=%zu regions=%zu\n", r, fps.back().mapped, fps.back().regions); mi_debug_show_arenas(); }
   }
   const Footprint& L = fps.back();
   size_t os_maps = (size_t)vf_count(VF_MAP) - os_maps_before;
@@ -484,11 +485,21 @@ static void exec_c11(const Case& c, Exec& ex) {
   if (L.small_outside > 40) fail_now("os-small-regions-leaked", "after free-all + mi_collect(true): %zu small non-arena mappings remain", L.small_outside);
   if (purge_delay >= 0 && decommits && L.arena_resident > 16) fail_now("arena-still-committed", "after free-all + mi_collect(true): %zu resident pages inside arenas (purge_delay=%ld)", L.arena_resident, purge_delay);
   // Oracle B: no creep from one repetition to the next (two warm-up repetitions)
+  // Known finding F18: the number of reserved arenas (a high-water mark of the peak demand) can step up once in a late repetition, because the
+  // peak depends on the phase of the allocator's periodic clean-up. Excluded by construction: memory outside arenas is compared strictly; for
+  // arena reservations a single late step is tolerated (counted in excluded_by_guard) and only repeated growth is a violation. `cfg strict_creep=1`
+  // (used by the committed replay of the finding) restores the literal reading.
+  size_t arena_steps = 0, last_step = 0;
   for (size_t r = 3; r < fps.size(); r++) {
-    if (fps[r].mapped > fps[r-1].mapped) fail_now("mapped-creep", "mapped bytes grew from repetition %zu to %zu: %zu -> %zu", r - 1, r, fps[r-1].mapped, fps[r].mapped);
-    if (fps[r].regions > fps[r-1].regions) fail_now("regions-creep", "mapping count grew from repetition %zu to %zu: %zu -> %zu", r - 1, r, fps[r-1].regions, fps[r].regions);
+    size_t na0 = fps[r-1].mapped - fps[r-1].arena_mapped, na1 = fps[r].mapped - fps[r].arena_mapped;
+    if (ex.strict_creep && fps[r].mapped > fps[r-1].mapped) fail_now("mapped-creep", "mapped bytes grew from repetition %zu to %zu: %zu -> %zu", r - 1, r, fps[r-1].mapped, fps[r].mapped);
+    if (na1 > na0) fail_now("mapped-creep", "mapped bytes outside arenas grew from repetition %zu to %zu: %zu -> %zu", r - 1, r, na0, na1);
+    if (fps[r].regions - fps[r].arena_regions > fps[r-1].regions - fps[r-1].arena_regions) fail_now("regions-creep", "mapping count (outside arenas) grew from repetition %zu to %zu: %zu -> %zu", r - 1, r, fps[r-1].regions - fps[r-1].arena_regions, fps[r].regions - fps[r].arena_regions);
+    if (fps[r].arena_mapped > fps[r-1].arena_mapped) { arena_steps++; last_step = r; }
     if (purge_delay >= 0 && decommits && fps[r].resident > fps[r-1].resident + 16) fail_now("resident-creep", "resident pages grew from repetition %zu to %zu: %zu -> %zu", r - 1, r, fps[r-1].resident, fps[r].resident);
   }
+  if (arena_steps >= 2) fail_now("arena-creep", "arena reservations grew in %zu of the %zu repetitions after the warm-up (last: repetition %zu, %zu -> %zu bytes in %zu arenas)", arena_steps, fps.size() - 3, last_step, fps[last_step-1].arena_mapped, fps[last_step].arena_mapped, fps[last_step].arenas);
+  if (arena_steps == 1) ex.count(C_EXCLUDED);
   ex.opi = (long)c.size(); ex.finish();
   size_t arenas = 0; for (int id = 1; id <= 64; id++) { size_t sz; if (!mi_arena_area((mi_arena_id_t)id, &sz)) break; arenas++; }
   ex.r.nontrivial = (os_maps > arenas) ? 1 : 0;     // at least one region came directly from the OS (not an arena reservation)
